@@ -248,6 +248,54 @@ func runStress(rep *Report, replay string) {
 			}
 		})
 	}
+	// a keyed collection over two chunks: two workers upsert / delete their own keys, one looks keys up
+	kc := column.NewCollection(column.Options{Capacity: 64, Vacuum: 24 * time.Hour})
+	kc.CreateColumn("k", column.ForKey())
+	kc.CreateColumn("v", column.ForInt64())
+	kc.Query(func(txn *column.Txn) error {
+		for i := 0; i < 16500; i++ {
+			txn.InsertKey(fmt.Sprintf("f%d", i), func(r column.Row) error { r.SetInt64("v", int64(i)); return nil })
+		}
+		return nil
+	})
+	var keyBad int64
+	keyState := [2]map[string]int64{{}, {}} // each worker's own view of its keys (value, or absent)
+	for kw := 0; kw < 2; kw++ {
+		kw := kw
+		worker(13+kw, func(r *rand.Rand) {
+			// worker 0 recycles filler keys of chunk 0, worker 1 those of chunk 1 (offsets ≥ 16384)
+			key := fmt.Sprintf("f%d", kw*16384+r.Intn(100))
+			if kw == 0 {
+				key = fmt.Sprintf("f%d", 8000+r.Intn(100))
+			}
+			st := keyState[kw]
+			switch r.Intn(3) {
+			case 0:
+				if kc.DeleteKey(key) == nil {
+					delete(st, key)
+				}
+			default:
+				v := int64(r.Intn(1 << 20))
+				if kc.UpsertKey(key, func(row column.Row) error { row.SetInt64("v", v); return nil }) == nil {
+					st[key] = v
+				}
+			}
+			// the worker's own keys read back what it wrote last (nobody else touches them)
+			probe := key
+			want, has := st[probe]
+			var got int64
+			err := kc.QueryKey(probe, func(row column.Row) error { got, _ = row.Int64("v"); return nil })
+			if _, tracked := st[probe]; tracked || !has {
+				if has && (err != nil || got != want) {
+					atomic.AddInt64(&keyBad, 1)
+				}
+			}
+		})
+	}
+	worker(15, func(r *rand.Rand) {
+		kc.QueryKey(fmt.Sprintf("f%d", r.Intn(16500)), func(row column.Row) error { row.Int64("v"); return nil })
+	})
+	defer kc.Close()
 	// snapshots and restores into other collections
 	worker(11, func(r *rand.Rand) {
 		var b bytes.Buffer
@@ -296,6 +344,9 @@ func runStress(rep *Report, replay string) {
 	case <-doneCh:
 	case <-time.After(30 * time.Second):
 		addV("deadlock", "workers did not terminate within 30 s after the stop signal (deadlock)")
+	}
+	if keyBad > 0 {
+		addV("keys", fmt.Sprintf("%d lookups of a key right after its owner upserted it did not return the row just written", keyBad))
 	}
 	if torn > 0 {
 		addV("torn", fmt.Sprintf("%d reads inside a callback saw a+b≠sum on a row whose writers always preserve it (half-applied commit)", torn))
